@@ -150,7 +150,8 @@ def gen():
     if not m or m.group(1) not in ITY or m.group(2) not in ITY:
         raise F.FactError("inhibitPair has unsupported type %s" % ty)
     out.append("Definition inhibit_left_ty : ity := %s.\nDefinition inhibit_right_ty : ity := %s.\n" % (ITY[m.group(1)], ITY[m.group(2)]))
-    b = F.fn_body(t, "set_up", rel)
+    # a range check moved into a private helper (`Self::check(.., *left, matrix.num_left())?`) is read where it is called
+    b = F.inline_calls(t, F.fn_body(t, "set_up", rel))
     out.append(coq_list("inhibit_left_guards", guards_of(b, {"left": "none"}, rel + ":set_up")))
     out.append(coq_list("inhibit_right_guards", guards_of(b, {"right": "none"}, rel + ":set_up")))
     eb = F.fn_body(t, "edit", rel)
